@@ -372,6 +372,15 @@ func revokedPillar(a dustArg) (*scenarioResult, error) {
 	if err := p.ProduceN(3); err != nil {
 		return nil, err
 	}
+	// weight behind the new pillar, and a delegation that will move in mid-epoch: the pillars' weights differ from period to period
+	delegate := func(u *wallet.KeyPair, name string) {
+		p.Submit(&nom.AccountBlock{BlockType: nom.BlockTypeUserSend, Address: u.Address, ToAddress: types.PillarContract, Data: definition.ABIPillars.PackMethodPanic(definition.DelegateMethodName, name)}, u)
+	}
+	delegate(g.User5, g.Pillar4Name)
+	delegate(g.User2, g.Pillar4Name)
+	if err := p.ProduceN(2); err != nil {
+		return nil, err
+	}
 	st := func() db.DB {
 		return p.Chain.GetFrontierMomentumStore().GetAccountStore(types.PillarContract).Storage()
 	}
@@ -404,6 +413,7 @@ func revokedPillar(a dustArg) (*scenarioResult, error) {
 			return nil, err
 		}
 	}
+	delegate(g.User1, g.Pillar2Name) // leaves pillar 1 in mid-epoch
 	if err := call("revoke", types.ZeroTokenStandard, big.NewInt(0), definition.ABIPillars.PackMethodPanic(definition.RevokeMethodName, g.Pillar4Name)); err != nil {
 		return nil, err
 	}
